@@ -121,9 +121,13 @@ class Victim:
                 self.handshake_completed = True
         return out
 
+    hold = False   # True: datagrams arrive back-to-back, the caller has not got round to transmitting yet
+
     def feed(self, data):
         """receive_datagram + contract loop; returns the datagrams the victim emitted."""
         self.conn.receive_datagram(data, self.peer_addr, now=self.now)
+        if self.hold:
+            return []
         return self.pump()
 
     def timer(self):
